@@ -8,7 +8,7 @@
 (*   ready   [[set per descriptor]]               readiness before pass 1, 2, .. (as observed on the real run)    *)
 (*   scripts [ [[op]] per slot ]                  operations of the j-th callback invocation of the slot          *)
 (* with op = [k, e, fd, m, os].  The scenario is executed on FdEvents exactly as the driver executes it on the   *)
-(* real loop (an operation that is not Legal is skipped), in EVERY order of descriptors and subscribers that    *)
+(* real loop (an operation that is not Legal is skipped), in EVERY order of ready descriptors that               *)
 (* the specification allows.  At the end of every such behaviour the outcome (per pass: callbacks with the       *)
 (* reported conditions, then existence / enabledness of every event) is printed; checks/c03.py calls a           *)
 (* scenario order-independent iff all its behaviours print the same outcome (callbacks compared as multisets).   *)
@@ -29,7 +29,7 @@ SInit ==
                        THEN [st |-> "alive", fd |-> 0, mask |-> SetOf(Scen[sc].ev[e].m), os |-> Scen[sc].ev[e].os, en |-> FALSE] ELSE NoEv]
   /\ recs = [r \in RID |-> DeadRec] /\ map = [fd \in FD |-> 0] /\ pool = <<>>
   /\ ready = [fd \in FD |-> {}] /\ closed = [fd \in FD |-> FALSE]
-  /\ phase = "idle" /\ rlist = {} /\ cur = NoCur /\ copy = {} /\ run = 0 /\ opsLeft = 0 /\ passes = 0
+  /\ phase = "idle" /\ rlist = {} /\ cur = NoCur /\ copy = <<>> /\ run = 0 /\ opsLeft = 0 /\ passes = 0
   /\ pins = {} /\ pollReady = [fd \in FD |-> {}] /\ cbEn = FALSE /\ viol = {}
   /\ stage = "main" /\ pos = 1 /\ inv = [e \in E |-> 0] /\ out = <<>> /\ cbs = <<>>
 
